@@ -496,6 +496,9 @@ def run(res):
 
 def replay(res, path):
     obj = json.load(open(path))
+    if obj.get("part") == "balancer-decisions":
+        import balancerlib
+        return balancerlib.replay(res, obj, path)
     sc = obj.get("scenario")
     if not sc:
         print("replay names a broken obligation: %s" % obj.get("failed"))
